@@ -25,6 +25,9 @@ def _kw(call, name):
 
 def run(ctx):
     rep = ctx.report
+    from ..typestate import check_functions as _rowbuffers
+    rep.rule('R5.9', 'output rows are assembled in a container that is created anew (or emptied) between two deliveries: no cell of one output row is carried into the next (row-buffer typestate)')
+    ctx.floor('row_buffer_generators', _rowbuffers(ctx, rep, 'R5.9', ctx.functions(['petl.transform.sorts'])), 4)
     rep.explanation = (
         'Decides the structural obligations which, together with the stdlib contracts (list.sort is stable, heapq.merge '
         'breaks ties by iterable order, min/max return the first extremum), imply that sort yields a stable sorted '
@@ -66,12 +69,22 @@ def run(ctx):
     ctx.report = sub
     try:
         c04.r43(ctx, sub)
+        c04.r42(ctx, sub)
     finally:
         ctx.report = saved
+    n58 = 0
     for o in sub.obligations:
-        if o.module == 'petl.transform.sorts':
+        if o.rule == 'R4.3' and o.module == 'petl.transform.sorts':
             rep.add('R5.6', (o.module, o.qualname), o.construct, o.status, o.message, o.lineno, o.detail)
+        if o.rule == 'R4.2' and o.module in ('petl.comparison', 'petl.transform.sorts'):
+            n58 += 1
+            rep.add('R5.8', (o.module, o.qualname), o.construct, o.status, o.message, o.lineno, o.detail)
+    if n58 < 9:
+        raise AnalysisError('anchor vanished: only %d derived-operator obligations (Comparable / _Keyed)' % n58)
     rep.rule('R5.6', 'ordering provenance in sorts.py (C04 R4.3 restricted to the module)')
+    rep.rule('R5.8', 'the operators the merges rely on besides < (max() uses >, heap items use <, <=, ...) are the stated '
+                     'functions of < and == on Comparable and key-only on _Keyed (C04 R4.2): otherwise the chunked / reverse '
+                     'merge orders equal keys differently from the in-memory sort')
 
 
 # ------------------------------------------------------------------------- R5.1
